@@ -32,7 +32,7 @@ RULE = ("populations of 12-20 stored objects (several types, several versions, b
         "Non-trivial: a filter set with a non-empty and non-total answer; distinct = distinct (filter set shape, route, store)")
 ASSUMPTIONS = [
     "documented semantics: a filter on a list-valued property holds when any element satisfies it; dotted paths descend into embedded objects and lists",
-    "out of the deciding set: order comparisons between different kinds (Python raises TypeError), '!=' on list-valued properties, 'contains' on non-list properties, timestamp filters on dictionary-kept objects",
+    "out of the deciding set: order comparisons between different kinds (Python raises TypeError), '!=' on list-valued properties, 'contains' on non-list properties",
     "the list model holds the include-defaults serialisation of each stored object (defaulted properties such as revoked=false are queryable)",
 ]
 TS_PROPS = {"created", "modified", "valid_from", "valid_until", "first_seen", "last_seen", "published", "first_observed", "last_observed", "seen",
@@ -88,6 +88,25 @@ def build_population(rng):
                 break
             if ov.get("revoked"):
                 break
+    # objects of an unregistered type: the stores keep them as dictionaries, timestamps as text in assorted spellings
+    for k in range(rng.choice([0, 2, 3])):
+        g = ObjGen(rng, "2.1", hostile=False)
+        base = V.instant_us(rng, 2015, 2022)
+        base -= base % rng.choice([1, 1000, 10 ** 6])
+        sid = g.new_id("x-unregistered")
+        for vi in range(rng.choice([1, 2])):
+            us = base + vi * rng.choice([1, 1000, 10 ** 6])
+            full = tsor.format_us(us, "any")
+            forms = [full, tsor.format_us(us, "millisecond", "min")]
+            if "." in full and len(full.split(".")[1]) < 7:
+                forms.append(full[:-1] + "0Z")
+            d = {"type": "x-unregistered", "id": sid, "created": rng.choice([tsor.format_us(base - 10 ** 6, "any"), tsor.format_us(base - 10 ** 6, "millisecond", "min")]),
+                 "modified": rng.choice(forms), "name": "kept as dictionary %d" % k, "labels": ["l1"], "confidence": rng.randrange(0, 101)}
+            if rng.random() < 0.5:
+                d["spec_version"] = "2.1"
+            if rng.random() < 0.5:
+                d["first_seen"] = rng.choice(forms)
+            items.append(d)
     return items
 
 
@@ -157,6 +176,8 @@ def gen_filter(rng, model):
             return (prop, op, [text, tsor.format_us(us + 5, "any")])
         if rng.random() < 0.35:
             naive = dt.datetime(1, 1, 1) + dt.timedelta(microseconds=us)
+            if rng.random() < 0.25:
+                return (prop, op, naive)              # a naive datetime means UTC by the library's documented convention
             tz = dt.timezone(dt.timedelta(minutes=rng.choice([0, 60, -330])))
             return (prop, op, naive.replace(tzinfo=dt.timezone.utc).astimezone(tz))
         return (prop, op, text)
